@@ -22,11 +22,11 @@ const (
 // safe there. Methods named DeletePart on a PartStore implementation forward their own
 // deletion and are accepted structurally.
 var c08DeleteCallers = map[string]string{
-	"(*internal/storage/metadatapart.metadataPartStorage).deleteUnreferencedParts": "deletes exactly the parts the metadata store reported unreferenced in the same transaction (rule unreferenced-def-use)",
-	"(*internal/storage/metadatapart.metadataPartStorage).dedupeFreshPart": "deletes the part id it was handed as freshly written and not yet recorded, after a shared id was acquired",
-	"(*internal/storage/metadatapart/gc.partGC).runGCWithContext": "only after Condemn returned true (rule gc-delete-requires-condemn)",
+	"(*internal/storage/metadatapart.metadataPartStorage).deleteUnreferencedParts":       "deletes exactly the parts the metadata store reported unreferenced in the same transaction (rule unreferenced-def-use)",
+	"(*internal/storage/metadatapart.metadataPartStorage).dedupeFreshPart":               "deletes the part id it was handed as freshly written and not yet recorded, after a shared id was acquired",
+	"(*internal/storage/metadatapart/gc.partGC).runGCWithContext":                        "only after Condemn returned true (rule gc-delete-requires-condemn)",
 	"(*internal/storage/metadatapart/partstore/outbox.outboxPartStore).replayDeletePart": "replays a DeletePart that was accepted earlier by this same store",
-	"internal/storage/metadatapart/partstore.Tester": "exported self-test helper; deletes the id it created itself",
+	"internal/storage/metadatapart/partstore.Tester":                                     "exported self-test helper; deletes the id it created itself",
 }
 
 // metadata-store methods that record part rows handed in by the caller.
